@@ -37,7 +37,7 @@ type c19Res struct {
 	Panic string   `json:"panic"`
 }
 
-var c19Names = []string{"Timeout", "CorrelationID", "Recoverer", "IgnoreErrors", "InstantAck", "Throttle", "CircuitBreaker", "DelayOnError", "Retry", "Duplicator"}
+var c19Names = []string{"Timeout", "CorrelationID", "Recoverer", "IgnoreErrors", "InstantAck", "Throttle", "CircuitBreaker", "DelayOnError", "Retry", "Duplicator", "RandomFail", "RandomPanic"}
 
 func c19Scripts() [][]c19Res {
 	ok0 := c19Res{[]c19Out{}, "nil", "none"}
@@ -189,6 +189,10 @@ func c19Build(name string, cs c19Case) message.HandlerMiddleware {
 		return middleware.InstantAck
 	case "Throttle":
 		return middleware.NewThrottle(2000, time.Second).Middleware
+	case "RandomFail":
+		return middleware.RandomFail(1)
+	case "RandomPanic":
+		return middleware.RandomPanic(1)
 	case "CircuitBreaker":
 		return middleware.NewCircuitBreaker(gobreaker.Settings{Name: "cb", ReadyToTrip: func(gobreaker.Counts) bool { return false }}).Middleware
 	case "DelayOnError":
@@ -217,6 +221,8 @@ func c19ErrClass(err error) string {
 		return "ce"
 	case stderrors.As(err, &rp):
 		return "panic:" + c19PanicKind(rp.V)
+	case err.Error() == "random fail occurred":
+		return "rf"
 	}
 	return "other:" + err.Error()
 }
@@ -230,6 +236,9 @@ func c19PanicKind(v any) string {
 	case string:
 		if x == "scripted panic value" {
 			return "value"
+		}
+		if x == "random panic occurred" {
+			return "rp"
 		}
 	case error:
 		if x == c19E2 {
